@@ -934,6 +934,12 @@ func (e *fnEnc) evalCall(x *ECall, env *specEnv) SVal {
 		} else if a.t.Sort == SIface {
 			r = ifPtr(a.t)
 		}
+		if a.typ != nil {
+			if _, isPtr := types.Unalias(a.typ).Underlying().(*types.Pointer); isPtr && a.t.Sort == SInt {
+				// interior addresses (negative): their root object is allocated
+				return SVal{t: e.existsAt(r, a.typ, env.st.alloc)}
+			}
+		}
 		return SVal{t: le(r, env.st.alloc)}
 	case "same":
 		// structural identity of two strings/slices: same backing array, offset and length
